@@ -641,16 +641,6 @@ def _restore_baseline():
     left = _dirty()
     if not left:
         return None
-    if os.environ.get("C09_DEBUG"):
-        import faulthandler
-
-        with open(os.environ["C09_DEBUG"], "a") as f:
-            f.write("---- restore failed: %s\n" % left)
-            import threading
-
-            for t in threading.enumerate():
-                f.write("   %r alive=%s ident=%s native=%s\n" % (t, t.is_alive(), t.ident, getattr(t, "native_id", None)))
-            faulthandler.dump_traceback(file=f)
     return "could not restore a clean worker after a case (%s left behind)" % ",".join(left)
 
 
@@ -1222,6 +1212,12 @@ def main(run):
         "the environment is compared by effective value; 'unset' becoming 'set to its default' after env.swap() is C11-F1, recorded there",
         "shell stdin is /dev/null, stdout/stderr go to /dev/null (quick) or to a harness pty (thorough, pty workers)",
         "a threading.enumerate() entry without an OS thread behind it (CPython's immortal _DummyThread) is not a running thread",
+        "while a finding is open its shape is thinned out (1 in 8 for F1/F4, 1 in 3 for pipelines with two threaded aliases) and its "
+        "repetitions capped at 3 (F4: 1); the exact symptom of the finding is tolerated on that shape and counted in excluded_known",
+        "after every case the worker is brought back to its pristine state (std streams, handlers incl. the saved handlers of left-over "
+        "xonsh thread objects, cwd, no child, no thread, descriptor table); a worker that cannot be restored stops (inconclusive, noted)",
+        "a task stops evaluating after %d cases with unattributed failures (bounded cost on a badly broken tree)" % MAX_FAILING_CASES,
+        "termios attributes of the harness pty are recorded but only counted (the property names terminal ownership)",
     ]
 
 
